@@ -81,6 +81,47 @@ impl TransportFn<()> for Run {
                 break;
             }
             let k = choose(12);
+            // Now and then a blocking call is made although a non-blocking request is still
+            // outstanding and its completion already sits in the used ring. The blocking call
+            // cannot succeed then (the documented outcome is an error: the completion at the
+            // head of the ring is not its own); what it must not do is take the other request's
+            // completion for its own. Only with a bouncing platform (the request stays with the
+            // device afterwards), and the run ends there.
+            if !pend.is_empty() && !self.faulty && with(|w| w.hal.bounce) && flip(1, 12) {
+                with(|w| w.drain_device());
+                if with(|w| !w.dq[0].used_fifo.is_empty()) {
+                    probe("blocking_call_behind_foreign_completion");
+                    let sec = sector_pick();
+                    let mut buf = vec![0x77u8; SECTOR_SIZE];
+                    let r = blk.read_blocks(sec as usize, &mut buf);
+                    oplog(|| format!("read_blocks({sec:#x}) with a foreign completion at the head of the used ring -> {r:?}"));
+                    if r.is_ok() {
+                        violation("blk-foreign-completion-taken", "read_blocks", "a blocking read returned Ok although the completion at the head of the used ring belongs to an outstanding non-blocking request".into());
+                    } else if buf.iter().any(|b| *b != 0x77) && buf.iter().any(|b| *b != 0) {
+                        violation("blk-foreign-completion-taken", "read_blocks", "a blocking read that failed nevertheless wrote another request's data into the caller's buffer".into());
+                    }
+                    // the outstanding request can still be collected with its own buffers
+                    if let Some(tok) = blk.peek_used() {
+                        if let Some(i) = pend.iter().position(|p| p.token == tok) {
+                            let mut p = pend.remove(i);
+                            // SAFETY: same buffers as at submission.
+                            let r2 = unsafe { if p.write { blk.complete_write_blocks(tok, &p.req, &p.buf, &mut p.resp) } else { blk.complete_read_blocks(tok, &p.req, &mut p.buf, &mut p.resp) } };
+                            if r2.is_err() && !violated() {
+                                violation("blk-foreign-completion-taken", "complete", format!("after the failed blocking call the outstanding request (token {tok}) can no longer be completed: {r2:?}"));
+                            }
+                        } else if !violated() {
+                            violation("blk-foreign-completion-taken", "peek_used", format!("after the failed blocking call the used ring head is token {tok}, which is not the outstanding request's"));
+                        }
+                    } else if !violated() {
+                        violation("blk-foreign-completion-taken", "peek_used", "after the failed blocking call the outstanding request's completion is gone from the used ring".into());
+                    }
+                    // (the blocking request stays with the device: no end-of-run accounting)
+                    with(|w| w.stop = true);
+                    drop(blk);
+                    std::mem::forget(pend);
+                    return;
+                }
+            }
             let blocking = pend.is_empty() && flip(1, 2);
             if blocking {
                 let k = k % 6;
